@@ -53,6 +53,7 @@ type c04Out struct {
 }
 
 func c04Run(in c04In) c04Out {
+	vk.Running("active", in)
 	var out c04Out
 	dir, _ := os.MkdirTemp("", "c04")
 	defer os.RemoveAll(dir)
